@@ -1969,3 +1969,346 @@ var rGenericPath = &Rule{
 		c.Min("stores into the outgoing ReportablePayload", n, 4)
 	},
 }
+
+// ---------------------------------------------------------------------------
+// R-WRITE-FAITHFUL
+
+var rWriteFaithful = &Rule{
+	Name: "R-WRITE-FAITHFUL",
+	Doc: "the formatter state's Write passes bytes through: in (*errbase.state).Write the only byte value the input is compared with is '\\n' (the one character the state machine re-lays out), and nothing already buffered is taken back (no Truncate / Reset / Next on the buffers). The text reaching Write has already been escaped and enclosed by redact for redactable output and is the text Error() returns for plain output: dropping or re-interpreting any other byte (a carriage return, say) makes %v differ from Error(), makes texts differ between a node that renders itself and one that is re-assembled after a hop, and can even re-assemble a redaction marker out of bytes that redact had kept apart",
+	Run: func(c *core.Ctx) {
+		p := c.P
+		st := p.Named("errbase", "state")
+		if st == nil {
+			c.InternalErr("errbase.state", "type not found")
+			return
+		}
+		w := p.Method(st, "Write")
+		if w == nil || len(w.Params) < 2 {
+			c.InternalErr("(*errbase.state).Write", "method not found")
+			return
+		}
+		b := w.Params[1]
+		// values that are bytes of b: b[i] loads, range values
+		isInputByte := func(v ssa.Value) bool {
+			switch x := v.(type) {
+			case *ssa.UnOp:
+				if ia, ok := x.X.(*ssa.IndexAddr); ok {
+					return ia.X == ssa.Value(b)
+				}
+			case *ssa.Index:
+				return x.X == ssa.Value(b)
+			case *ssa.Extract:
+				// value of `for i, c := range b` (Next over a range iterator is used for strings/maps only; slices use IndexAddr)
+			}
+			return false
+		}
+		nCmp := 0
+		var other []string
+		var takeBack []string
+		sx.EachInstr(w, func(in ssa.Instruction) {
+			switch x := in.(type) {
+			case *ssa.BinOp:
+				if x.Op != token.EQL && x.Op != token.NEQ {
+					return
+				}
+				var k *ssa.Const
+				var v ssa.Value
+				if cst, ok := x.Y.(*ssa.Const); ok {
+					k, v = cst, x.X
+				} else if cst, ok := x.X.(*ssa.Const); ok {
+					k, v = cst, x.Y
+				}
+				if k == nil || !isInputByte(v) {
+					return
+				}
+				nCmp++
+				if n, ok := sx.ConstInt(k); !ok || n != '\n' {
+					other = append(other, fmt.Sprintf("%q", rune(n)))
+				}
+			case *ssa.Call:
+				f := sx.Callee(x)
+				if f == nil || f.Signature.Recv() == nil || len(x.Call.Args) == 0 {
+					return
+				}
+				if !sx.IsNamed(f.Signature.Recv().Type(), "bytes", "Buffer") {
+					return
+				}
+				switch f.Name() {
+				case "Truncate", "Reset", "Next", "ReadByte", "ReadRune", "UnreadByte", "UnreadRune", "ReadBytes", "ReadString":
+					takeBack = append(takeBack, f.Name())
+				}
+			}
+		})
+		sort.Strings(other)
+		sort.Strings(takeBack)
+		c.Check(nCmp >= 1, "(*errbase.state).Write: newline handling", w.Pos(), "the input bytes are compared with '\\n'", "Write no longer looks for newlines in its input")
+		c.Check(len(other) == 0, "(*errbase.state).Write: bytes treated specially", w.Pos(), "only '\\n'",
+			"Write compares its input with "+strings.Join(dedupStr(other), ", ")+" besides '\\n': bytes other than the newline are dropped or re-interpreted, so the rendering differs from Error() / from the text redact produced (markers can be re-assembled or split across lines)")
+		c.Check(len(takeBack) == 0, "(*errbase.state).Write: buffered text", w.Pos(), "never taken back",
+			"Write removes text it has already buffered ("+strings.Join(dedupStr(takeBack), ", ")+"): bytes of the message disappear from the rendering")
+	},
+}
+
+// ---------------------------------------------------------------------------
+// R-PB-NILPTR
+
+var rPbNilPtr = &Rule{
+	Name: "R-PB-NILPTR",
+	Doc: "an absent sub-message is not dereferenced: wherever hand-written code reads a member THROUGH a pointer-typed field of a received protobuf message (x.Details.FullDetails.TypeUrl - FullDetails is nil when the sender attached no payload), the access is dominated by a non-nil test of that very field. (Calling a generated Get* accessor on the nil pointer is fine - they are nil-safe - and passing the pointer on is not a dereference.)",
+	Run: func(c *core.Ctx) {
+		n := 0
+		for _, fn := range c.P.HandFuncs() {
+			sx.EachInstr(fn, func(in ssa.Instruction) {
+				fa, ok := in.(*ssa.FieldAddr)
+				if !ok {
+					return
+				}
+				// fa.X must be the loaded value of a pointer-typed field of an errorspb message
+				ld, ok := fa.X.(*ssa.UnOp)
+				if !ok || ld.Op != token.MUL {
+					return
+				}
+				inner, ok := ld.X.(*ssa.FieldAddr)
+				if !ok {
+					return
+				}
+				owner := sx.NamedOf(inner.X.Type())
+				if owner == nil || owner.Obj().Pkg() == nil || !strings.HasSuffix(owner.Obj().Pkg().Path(), "/errorspb") {
+					return
+				}
+				if _, isPtr := types.Unalias(ld.Type()).Underlying().(*types.Pointer); !isPtr {
+					return
+				}
+				n++
+				fname := owner.Obj().Name() + "." + fieldNameOf(inner)
+				construct := load.FnName(fn) + ": member read through " + fname
+				guarded := false
+				for _, l := range dominatingLits(fa.Block()) {
+					bin, isBin := l.V.(*ssa.BinOp)
+					if !isBin || (bin.Op != token.EQL && bin.Op != token.NEQ) {
+						continue
+					}
+					var other ssa.Value
+					if sx.IsNil(bin.Y) {
+						other = bin.X
+					} else if sx.IsNil(bin.X) {
+						other = bin.Y
+					}
+					if other == nil || !sameExpr(other, ld, 0) {
+						continue
+					}
+					if (bin.Op == token.NEQ && !l.Neg) || (bin.Op == token.EQL && l.Neg) {
+						guarded = true
+					}
+				}
+				c.Check(guarded, construct, fa.Pos(), "only under a non-nil test of "+fname,
+					"a member is read through the pointer field "+fname+" of a received message without a dominating non-nil test: when the sender attached no such sub-message (e.g. no payload) decoding panics instead of falling back")
+			})
+		}
+		c.Ob("all hand-written functions", token.NoPos, true, fmt.Sprintf("%d member reads through pointer fields of received messages", n))
+	},
+}
+
+// ---------------------------------------------------------------------------
+// R-IS-METHOD
+
+var rIsMethod = &Rule{
+	Name: "R-IS-METHOD",
+	Doc: "a layer's own Is method is always asked: in markers.Is and markers.IsAny the probe of the current layer's Is(error) bool method (tryDelegateToIsMethod) happens for every (layer, reference) pair - it is not control-dependent on the comparability of the reference (or on anything else computed from the reference's type). Is and IsAny are siblings: a layer that 'says so through its own Is method' must be heard by both, for comparable sentinels as well",
+	Run: func(c *core.Ctx) {
+		p := c.P
+		n := 0
+		for _, name := range []string{"Is", "IsAny"} {
+			fn := p.Func("markers", name)
+			if fn == nil {
+				c.InternalErr("markers."+name, "anchor not found")
+				continue
+			}
+			found := false
+			sx.EachInstr(fn, func(in ssa.Instruction) {
+				call, ok := in.(*ssa.Call)
+				if !ok || sx.Callee(call) == nil || sx.Callee(call).Name() != "tryDelegateToIsMethod" {
+					return
+				}
+				found = true
+				n++
+				bad := ""
+				for _, l := range dominatingLits(call.Block()) {
+					if dependsOnCall(l.V, "Comparable", map[ssa.Value]bool{}, 0) {
+						bad = "the comparability of the reference"
+					}
+				}
+				c.Check(bad == "", "markers."+name+": probe of the layer's Is method", call.Pos(), "reached for every pair, whatever the reference's comparability",
+					"the layer's own Is method is consulted only under a condition on "+bad+": for an ordinary (comparable) sentinel a layer that answers through Is(error) bool is no longer recognised by this function, while its sibling still recognises it")
+			})
+			c.Check(found, "markers."+name+": probe of the layer's Is method present", fn.Pos(), "tryDelegateToIsMethod is called", "the function no longer consults the layers' own Is methods")
+		}
+		c.Min("Is-method probes", n, 2)
+	},
+}
+
+// dependsOnCall: the computation of v uses the result of a call to a function / method with the given name.
+func dependsOnCall(v ssa.Value, name string, seen map[ssa.Value]bool, d int) bool {
+	if v == nil || seen[v] || d > 30 {
+		return false
+	}
+	seen[v] = true
+	if call, ok := v.(*ssa.Call); ok {
+		if call.Call.IsInvoke() && call.Call.Method.Name() == name {
+			return true
+		}
+		if f := sx.Callee(call); f != nil && f.Name() == name {
+			return true
+		}
+	}
+	in, ok := v.(ssa.Instruction)
+	if !ok {
+		return false
+	}
+	for _, op := range in.Operands(nil) {
+		if *op != nil && dependsOnCall(*op, name, seen, d+1) {
+			return true
+		}
+	}
+	if ld, ok := v.(*ssa.UnOp); ok && ld.Op == token.MUL {
+		if al, ok := ld.X.(*ssa.Alloc); ok {
+			for _, r := range *al.Referrers() {
+				if st, ok := r.(*ssa.Store); ok && st.Addr == ssa.Value(al) && dependsOnCall(st.Val, name, seen, d+1) {
+					return true
+				}
+			}
+		}
+	}
+	return false
+}
+
+// ---------------------------------------------------------------------------
+// R-AS-TARGET
+
+var rAsTarget = &Rule{
+	Name: "R-AS-TARGET",
+	Doc: "errutil.As validates its target like the standard library: the target's type must be a pointer (Kind() == reflect.Ptr tested on the target's own type), and the 'must be an interface or implement error' test applies Kind() != reflect.Interface and Implements(errorType) to one and the same reflect.Type - the pointer's ELEMENT type, the same value later used for AssignableTo. Testing the kind of the pointer type instead makes the interface exemption unreachable: As panics for interface targets that do not embed error, where errors.As succeeds or returns false",
+	Run: func(c *core.Ctx) {
+		fn := c.P.Func("errutil", "As")
+		if fn == nil {
+			c.InternalErr("errutil.As", "anchor not found")
+			return
+		}
+		// reflect.Kind constants: Interface = 20, Ptr = 22
+		var ifaceRecv, implRecv, assignArg []ssa.Value
+		sx.EachInstr(fn, func(in ssa.Instruction) {
+			switch x := in.(type) {
+			case *ssa.BinOp:
+				if x.Op != token.EQL && x.Op != token.NEQ {
+					return
+				}
+				call, ok := x.X.(*ssa.Call)
+				k, isK := sx.ConstInt(x.Y)
+				if !ok || !isK || !call.Call.IsInvoke() || call.Call.Method.Name() != "Kind" {
+					return
+				}
+				if k == 20 {
+					ifaceRecv = append(ifaceRecv, call.Call.Value)
+				}
+			case *ssa.Call:
+				if x.Call.IsInvoke() && x.Call.Method.Name() == "Implements" {
+					implRecv = append(implRecv, x.Call.Value)
+				}
+				if x.Call.IsInvoke() && x.Call.Method.Name() == "AssignableTo" && len(x.Call.Args) == 1 {
+					assignArg = append(assignArg, x.Call.Args[0])
+				}
+			}
+		})
+		if len(ifaceRecv) != 1 || len(implRecv) != 1 || len(assignArg) < 1 {
+			c.Undecided("errutil.As: target validation", fn.Pos(), fmt.Sprintf("expected one Kind()==Interface test, one Implements call and an AssignableTo call (found %d, %d, %d)", len(ifaceRecv), len(implRecv), len(assignArg)))
+			return
+		}
+		isElemOf := func(v ssa.Value) ssa.Value {
+			if call, ok := v.(*ssa.Call); ok && call.Call.IsInvoke() && call.Call.Method.Name() == "Elem" {
+				return call.Call.Value
+			}
+			return nil
+		}
+		same := sameTypeExpr(ifaceRecv[0], implRecv[0]) && isElemOf(ifaceRecv[0]) != nil && isElemOf(assignArg[0]) != nil && isElemOf(ifaceRecv[0]) == isElemOf(assignArg[0])
+		c.Check(same, "errutil.As: target validation", fn.Pos(), "Kind() != Interface and Implements(errorType) are applied to the target's element type (the type used for AssignableTo)",
+			"the interface-kind test and the Implements test of the target validation are not applied to the same type (the element type of the target pointer): interface targets that do not embed error make As panic where the standard errors.As answers")
+	},
+}
+
+// sameTypeExpr: the same SSA value, or two calls x.Elem() of the same receiver.
+func sameTypeExpr(a, b ssa.Value) bool {
+	if a == b {
+		return true
+	}
+	ca, ok1 := a.(*ssa.Call)
+	cb, ok2 := b.(*ssa.Call)
+	if ok1 && ok2 && ca.Call.IsInvoke() && cb.Call.IsInvoke() && ca.Call.Method.Name() == "Elem" && cb.Call.Method.Name() == "Elem" {
+		return ca.Call.Value == cb.Call.Value
+	}
+	return false
+}
+
+// ---------------------------------------------------------------------------
+// R-PER-LAYER
+
+// perLayerCarried: string variables of BuildSentryReport that are meant to survive from one layer to the next.
+var perLayerCarried = map[string]string{
+	"leafErrorType":   "the type name of the innermost layer, set in the first iteration and used as the fallback exception type after the loop",
+	"firstDetailLine": "the first line of the verbose rendering, computed before the loop and consumed by the first layer that needs a headline",
+}
+
+var rPerLayer = &Rule{
+	Name: "R-PER-LAYER",
+	Doc: "what the report says about a layer is computed from that layer: in report.BuildSentryReport no string value is carried from one iteration of a loop over the layers to the next - there is no string-typed phi in the header of a loop other than pure separators (phis all of whose incoming values are constants) and the two variables that are carried by design (tabled: leafErrorType, firstDetailLine). A per-layer variable declared outside its loop and assigned only on some paths keeps the value of an earlier layer: e.g. every ordinary wrapper above a renamed type would be listed with that type's family name",
+	Run: func(c *core.Ctx) {
+		fn := c.P.Func("report", "BuildSentryReport")
+		if fn == nil {
+			c.InternalErr("report.BuildSentryReport", "anchor not found")
+			return
+		}
+		nLoops := 0
+		for _, l := range naturalLoops(fn) {
+			nLoops++
+			for _, in := range l.Header.Instrs {
+				ph, ok := in.(*ssa.Phi)
+				if !ok {
+					break
+				}
+				if !isStringType(ph.Type()) {
+					continue
+				}
+				allConst := true
+				var visit func(v ssa.Value, d int)
+				seen := map[ssa.Value]bool{}
+				visit = func(v ssa.Value, d int) {
+					if seen[v] || d > 6 {
+						return
+					}
+					seen[v] = true
+					switch x := v.(type) {
+					case *ssa.Const:
+					case *ssa.Phi:
+						for _, e := range x.Edges {
+							visit(e, d+1)
+						}
+					default:
+						allConst = false
+					}
+				}
+				visit(ph, 0)
+				name := ph.Comment
+				if name == "" {
+					name = ph.Name()
+				}
+				if why, tabled := perLayerCarried[name]; tabled {
+					c.Ob("report.BuildSentryReport: string carried across iterations ("+name+")", ph.Pos(), true, "carried by design: "+why)
+					continue
+				}
+				c.Check(allConst, "report.BuildSentryReport: string carried across iterations ("+name+")", ph.Pos(), "only constant separators are carried from one iteration to the next",
+					"the string variable "+name+" keeps, on some paths, the value computed for an earlier layer: a per-layer text (type name, family, detail) of one layer is printed for the layers processed after it")
+			}
+		}
+		c.Min("loops of BuildSentryReport", nLoops, 1)
+	},
+}
